@@ -239,9 +239,13 @@ def conformance(tier):
             continue
         # a RANDOM policy: whatever the seeded generator picks must be one of the model's behaviours -- several seeds
         rseeds = [11, 12, 13, 14] if '"RANDOM"' in _json.dumps(c["nodes"]) else [None]
-        jobs += [(c, rs) for rs in rseeds]
-    for c, rs in jobs:
-        c2 = dict(c, T=MAXT + 0.5)
+        jobs += [(c, rs, 0) for rs in rseeds]
+        # the design has no absolute clock: the same factory started in an Environment whose initial_time is not zero must
+        # (relative to its start) end every instant in a state of the same model
+        if len(jobs) % 4 == 0 or any(n.get("setup") for n in c["nodes"]):
+            jobs.append((c, rseeds[0], 13))
+    for c, rs, t0 in jobs:
+        c2 = dict(c, T=MAXT + 0.5, t0=t0)
         if rs is not None:
             _random.seed(rs)
         tr = factory_driver.run_config(c2)
